@@ -222,6 +222,7 @@ class Prog:
                 if self.done == self.n:
                     order = TOKEN.findall(self.visible_since())
                     for toks in self.mid_exports:
+                        toks = [x for x in toks if x not in self.captured_tokens]  # (those are judged by the final export)
                         if toks != order[:len(toks)]:
                             self._v("export-text", "concurrent-export-not-prefix", "an export taken while other threads were printing returned tokens %r, not a prefix of the file order %r" % (toks[:20], order[:20]))
                     for op in self.case["final"]:
